@@ -16,6 +16,14 @@ import (
 )
 
 // Rng is SplitMix64; every random choice of a run derives from one state.
+// RepoDir is the source tree the translators read: /repo, or a scratch worktree during development.
+func RepoDir() string {
+	if d := os.Getenv("VERIF_REPO"); d != "" {
+		return d
+	}
+	return "/repo"
+}
+
 type Rng struct{ s uint64 }
 
 func NewRng(seed uint64) *Rng { return &Rng{s: seed*0x9E3779B97F4A7C15 + 0x1234567} }
